@@ -1224,6 +1224,15 @@ func (lg *ledger) term(v ssa.Value) (string, int64) {
 				}
 				return b, o + k
 			}
+			// a - (a - z) = z  (e.g. first := n - missing with missing := n - len(args))
+			if inner, ok := x.Y.(*ssa.BinOp); ok && x.Op == token.SUB && inner.Op == token.SUB {
+				ab, ao := lg.term(x.X)
+				ib, io := lg.term(inner.X)
+				if ab == ib {
+					zb, zo := lg.term(inner.Y)
+					return zb, zo + ao - io
+				}
+			}
 		}
 	case *ssa.Convert:
 		return lg.term(x.X)
@@ -1353,6 +1362,9 @@ func (lg *ledger) boundFacts(b *ssa.BasicBlock) (out []diffC) {
 				}
 				var c0 *int64
 				okInd := true
+				var startB string
+				var startO int64
+				nStart := 0
 				for _, e := range x.Edges {
 					eb, eo := lg.term(e)
 					switch {
@@ -1363,11 +1375,16 @@ func (lg *ledger) boundFacts(b *ssa.BasicBlock) (out []diffC) {
 						}
 					case eb == lg.key(x) && eo >= 0:
 					default:
-						okInd = false
+						startB, startO = eb, eo
+						nStart++
 					}
 				}
-				if okInd && c0 != nil {
+				if okInd && c0 != nil && nStart == 0 {
 					out = append(out, diffC{"0", lg.key(x), -*c0}) // 0 - phi <= -c0
+				}
+				// phi(start, phi+k) with k >= 0 and a symbolic start: phi >= start
+				if c0 == nil && nStart == 1 && len(x.Edges) == 2 {
+					out = append(out, diffC{startB, lg.key(x), -startO})
 				}
 			case *ssa.Index:
 				if arr, isArr := x.X.Type().Underlying().(*types.Array); isArr {
